@@ -59,6 +59,7 @@ def read_num(buf, off: int, end: int):
     return v, off + 1 + n, minimal
 
 
+NO_CLAMP_HERE = False   # set while the components of a Name are read (see pkt.strict_name)
 CLAMP = False   # emulation of ONE known library defect (value cut by slicing); see c07_decoders / known_findings.json
 
 
@@ -77,7 +78,8 @@ def read_tlv(buf, off: int, end: int):
     typ, p, m1 = read_num(buf, off, end)
     ln, p, m2 = read_num(buf, p, end)
     if p + ln > end:
-        if CLAMP:
+        if CLAMP and not NO_CLAMP_HERE:
+            # (not inside a Name, see pkt.strict_name: Name.decode checks the buffer - only Bytes / Model fields are clamped)
             return typ, off, p, end, (m1 and m2)
         raise Malformed(f'element type {typ} at {off} overruns its container ({p}+{ln}>{end})')
     return typ, off, p, p + ln, (m1 and m2)
